@@ -69,6 +69,25 @@ static std::string eval_int(ChaiScript &c, const std::string &src) {
   } catch (const std::exception &) { return "undef"; }
 }
 
+// what an engine answers to questions whose operands are the process-wide shared objects (the `true` / `false` / void singletons of
+// boxed_value.hpp, results of built-in comparisons) and whether those objects carry attributes: one token, no separators of the protocol
+static std::string probe(ChaiScript &c) {
+  static const char *qs[] = {"to_string(true)", "to_string(false)", "to_string(1 < 2)", "to_string(2 == 2)", "to_string(1 > 2)", "to_string(!true)", "to_string(!(1 == 2))",
+                             "to_string((1 == 1) && true)", "to_string(false || (3 != 3))", "var n0 = 0; if (1 < 2) { n0 = 1 } else { n0 = 2 }; to_string(n0)",
+                             "var b0 = true; b0 = false; b0 = true; to_string(b0)", "var k0 = 0; while (k0 < 3) { ++k0 }; to_string(k0)",
+                             "to_string(get_var_attr(true, \"ATTR\").is_var_undef())", "to_string(get_var_attr(false, \"ATTR\").is_var_undef())",
+                             "to_string(get_var_attr(2 == 2, \"ATTR\").is_var_undef())", "var vv0 = [1]; to_string(get_var_attr(vv0.clear(), \"ATTR\").is_var_undef())",
+                             "to_string(true.is_var_const())", "to_string((1 < 2).is_var_const())", "to_string(1)", "to_string(1.5)", "to_string(\"a\" == \"a\")"};
+  std::string out;
+  for (const char *q : qs) {
+    std::string a;
+    try { a = c.eval<std::string>(q); } catch (const std::exception &) { a = "E"; } catch (...) { a = "X"; }
+    out += (out.empty() ? "" : "|") + a;
+    try { c.set_locals({}); } catch (...) {}
+  }
+  return out;
+}
+
 int main() {
   static const int NSLOT = 3;
   alignas(64) static unsigned char pool[NSLOT][sizeof(ChaiScript)];
@@ -99,6 +118,21 @@ int main() {
         if (it != engines.end()) {
           on(th, [&]() -> std::string { if (it->second.second < NSLOT) it->second.first->~ChaiScript(); else delete it->second.first; return ""; });
           engines.erase(it);
+        }
+      } else if ((w[0] == "probe" && w.size() == 3) || (w[0] == "script" && w.size() == 4)) {
+        const int th = std::stoi(w[1]);
+        auto it = engines.find(w[2]);
+        has_result = true;
+        if (it == engines.end()) r = "noengine";
+        else {
+          ChaiScript &c = *it->second.first;
+          if (w[0] == "probe") r = on(th, [&]() -> std::string { return probe(c); });
+          else {
+            const std::string src = vh::hex_decode(w[3]);
+            r = on(th, [&]() -> std::string {
+              try { c.eval(src); return "ran"; } catch (const chaiscript::exception::eval_error &) { return "rejected"; } catch (const std::exception &) { return "threw"; } catch (...) { return "threw-other"; }
+            });
+          }
         }
       } else if (w.size() >= 4) {
         const int th = std::stoi(w[1]);
